@@ -12,6 +12,10 @@ package config
 //@   dyncalls noeffect
 //@   modifies *
 //@   ensures err == nil ==> calls("loop#5") == 1
+//@   at call StructTag).Lookup#1 assert a1 == "mapstructure"
+//@   at call StructTag).Lookup#2 assert a1 == "repeatable"
+//@   at call StructTag).Lookup#3 assert a1 == "default"
+//@   at call StructTag).Lookup#4 assert a1 == "required"
 
 // Merging keeps order: all items of the including file first, then those of the included file.
 //@ func (*Merger).mergeItems
@@ -58,3 +62,9 @@ package config
 //@   at call builtin:append#1 assert a0 == params.Routing.Rules[$idx].Outbound.Params
 //@   at call builtin:append#1 assert-after len(result) == len(a0) + 1
 //@   at call builtin:append#2 assert a0 == f.Params
+
+// a function-or-string value is a name, one function, or a one-element function list; anything else is an
+// error. Nothing the caller can see is modified.
+//@ func ParseFunctionOrString
+//@   dyncalls noeffect
+//@   ensures result1 != nil ==> result0 == nil
